@@ -27,6 +27,7 @@ NEG_CONTROLS = {
     "devFinally": ("B1_OncePerExchangeInOrder", "B4_CompleteAfterClose", "Contract"),
     "devNoJoin": ("B1_OncePerExchangeInOrder", "B4_CompleteAfterClose", "Contract"),
     "devState": ("B2_RowHoldsTheExchange", "Contract"),
+    "devCut": ("B1_OncePerExchangeInOrder", "B4_CompleteAfterClose", "Contract"),
 }
 DESIGN_ACTIONS = ["StartCall", "Send", "Reply", "ToggleImplicit", "Abort", "Finish", "DiscJoin",
                   "DiscCancelWriter", "DiscClose", "WriterTake", "WriterCommit"]
@@ -249,6 +250,12 @@ def behaviour_to_job(beh: list[tuple[str, dict[str, Any]]]) -> tuple[dict[str, A
             o = None
             # outcome class of the design = shape of the reply it put into the exchange
             rb = e["replies"][0] if e["replies"] else None
+            if e["out"] == "cut":
+                step["script"] = [["H"]]
+                step["cut"] = True
+                points += 1  # read-pre only: the read never returns
+                prev = st
+                continue
             if e["out"] == "ret":
                 o = "Pos" if rb and rb[0] != 127 else "Neg"
             elif rb is None:
@@ -312,8 +319,10 @@ def run(tier: str, seed: int) -> Report:
         "ECU.retry_wait is shortened (back-off duration is irrelevant to C11); load_transport is stubbed in the "
         "harness process to return the scripted transport",
         "the tester-present worker is switched off; concurrency is exercised by concurrent caller tasks instead",
-        "cancel of a call in flight / a call that never reached the wire / a handler that was never closed: "
-        "statement silent -> every outcome accepted, counted as unspecified",
+        "a call in flight that is cut by the cancellation of the RUN / a call that never reached the wire / a handler "
+        "that was never closed: statement silent ('no completed exchange is missing') -> every outcome accepted, "
+        "counted as unspecified; a call cut by a timeout of its own caller while the run goes on (asyncio.wait_for, "
+        "as ECU.wait_for_ecu does) is an outcome like any other: its row is due",
     ]
     # ---- 1. model checking of the design layer against the contract + negative controls
     # (TLC subprocesses run in the background while the real runs are produced; results are
@@ -383,6 +392,15 @@ def run(tier: str, seed: int) -> Report:
     abort_hists.append(h0)
     while len(abort_hists) < n_abort_h:
         abort_hists.append([s for s in random_history(rnd, good, scripts, 5) if s["op"] != "raise"])
+    # calls cut by a timeout of their own caller while the request is on the wire (the run goes on)
+    for pre in ([], [["D", "7f2278"]]):
+        cut = dict(req_step(good[rd], pre + [["H"]], label="Cut"), cut=True)
+        add_file([{"hist": [cut]}], "cut-by-caller-timeout")
+        add_file([{"hist": [req_step(good[ds], pick(ds, "Pos")[1], label="Pos"), cut,
+                            req_step(good[rd], pick(rd, "Pos")[1], ana=True, label="Pos"), dict(cut, ana=True),
+                            req_step(good[rd], [["T"]], label="Timeout")]}], "cut-by-caller-timeout")
+        add_file([{"hist": [{"op": "toggle", "on": False}, cut, {"op": "toggle", "on": True}, cut]}],
+                 "cut-by-caller-timeout")
     probe = run_files([[{"hist": h}] for h in abort_hists])
     for h, p in zip(abort_hists, probe):
         for k in range(1, p["points"] + 1):
